@@ -611,8 +611,9 @@ def evidence_meta():
         "rule": (
             "one case = one process lifetime running either a history of "
             "2..26 resolver (re)assignments through the 8 documented routes "
-            "interleaved with validate() / process_graphql_query checks and "
-            "shuffled rebuilds, or a labelled invalid document built under 3 "
+            "interleaved with validate() / process_graphql_query checks, "
+            "read-only uses, refused registrations, rebases on an extension "
+            "and shuffled rebuilds, or a labelled invalid document built under 3 "
             "definition orders; distinct = distinct operation sequence; "
             "non-trivial = length >= 3 with >= 2 operation kinds"),
         "real_vs_stub": {
@@ -625,6 +626,12 @@ def evidence_meta():
             "decided; rule-by-rule accept/reject is a pure function of the "
             "schema and is not claimed",
             "the reference verdict is py-gql's own validator run on a "
-            "freshly built schema carrying the same assignment",
+            "freshly built schema carrying the same assignment; it is "
+            "cross-checked against callables labelled compatible with every "
+            "field / with no field (three positional parameters, required "
+            "extra parameters)",
+            "read-only uses of the live schema (diff_schema, print, clone, "
+            "validate_schema) and refused registrations must leave the next "
+            "verdict as the model predicts",
         ],
     }
